@@ -185,28 +185,53 @@ def run(ctx):
     recs = []
     cfgs = [("MC_Merge", c) for c in cfgs] + [("MC_MergeAoH", "MC_MergeAoH_q.cfg" if ctx.quick else "MC_MergeAoH_t.cfg"),
                                                     ("MC_MergeRules", "MC_MergeRules_q.cfg")]
+    import hashlib
+    total = info = 0
+    pairs = set()
+    nontrivial = 0
+    nrecs = 0
+    sample = None
+
+    def handle(batch):
+        nonlocal total, info, nontrivial
+        items = [(rec, querycorpus.variant_of(rec["l"] + rec["r"], ctx.seed, ctx.quick)) for rec in batch]
+        for n, out in querycorpus.pmap(_work, items, chunk=200):
+            total += n
+            for sig, desc, rp, _ in out:
+                if sig == "info":
+                    info += 1
+                else:
+                    ctx.violation(sig, desc, rp)
+        for rec in batch:
+            pairs.add(hashlib.md5(rec["key"].encode()).digest())
+            if rec["group"]["res"]["ok"] and rec["group"]["res"]["out"] not in (rec["l"], rec["r"]):
+                nontrivial += len(rec["group"]["cfgs"])
+
+    # memory-bounded: the thorough configurations emit hundreds of MB of cases; they are read and replayed in batches
     for module, cfg in cfgs:
         f = ctx.path(cfg + ".cases")
         r = core.run_tlc(ctx, module, cfg, env={"CASES_OUT": f}, timeout=7200)
         if r["violated"]:
             raise core.MachineryError("%s violated in %s (see %s)" % (r["violated"], cfg, r["log"]))
-        recs.extend(core.read_csv_json_lines(f))
+        batch = []
+        with open(f) as fh:
+            for line in fh:
+                line = line.strip()
+                if not line:
+                    continue
+                x = json.loads(line)
+                if isinstance(x, str):
+                    x = json.loads(x)
+                batch.append(x)
+                nrecs += 1
+                if sample is None or nrecs == 500:
+                    sample = x
+                if len(batch) >= 20000:
+                    handle(batch)
+                    batch = []
+        if batch:
+            handle(batch)
         os.remove(f)
-    items = [(rec, querycorpus.variant_of(rec["l"] + rec["r"], ctx.seed, ctx.quick)) for rec in recs]
-    total = info = 0
-    pairs = set()
-    nontrivial = 0
-    for n, out in querycorpus.pmap(_work, items, chunk=200):
-        total += n
-        for sig, desc, rp, _ in out:
-            if sig == "info":
-                info += 1
-            else:
-                ctx.violation(sig, desc, rp)
-    for rec in recs:
-        pairs.add(rec["key"])
-        if rec["group"]["res"]["ok"] and rec["group"]["res"]["out"] not in (rec["l"], rec["r"]):
-            nontrivial += len(rec["group"]["cfgs"])
     rnd = random_pairs(ctx, 500 if ctx.quick else 6000, 3)
     total += rnd["random_merges"]
     nontrivial += rnd["random_nontrivial"]
@@ -214,11 +239,11 @@ def run(ctx):
     ctx.coverage.update(rnd)
     ctx.informational = info
     ctx.coverage.update({
-        "evaluations": total, "distinct_nontrivial": nontrivial, "pairs": len(pairs), "result_groups": len(recs),
+        "evaluations": total, "distinct_nontrivial": nontrivial, "pairs": len(pairs), "result_groups": nrecs,
         "model_drift": info,
         "rule": "every pair of generator documents (MC_Merge cfg) x every configuration of the model's configuration set; non-trivial = the policy-defined result differs from both inputs",
         "traces_validated_against_impl": total, "exhaustive": True,
-        "samples": [recs[len(recs) // 2]] if recs else [],
+        "samples": [sample] if sample else [],
         "trusted_base": ["TLC 1.8", "spec/YMerge.tla as the reading of the yaml-merge usage text and policy enum docstrings", "harness/absdoc.py"],
     })
 
